@@ -657,6 +657,13 @@ class PrecipitateBase(GenericModel):
             _, volDG, self._precBetaTemp[p] = nucfuncs.volumetricDrivingForce(self.therm, xComp, T, precParams, aspectRatio, self.removeCache)
             Y.drivingForce[0,p] = volDG
             if volDG < 0:
+                # Y carries the values of the previous step, so clear the nucleation terms here
+                # Otherwise, the last nucleation rate, barrier and radius stay in effect while the driving force is negative
+                Y.Rcrit[0,p] = 0
+                Y.Gcrit[0,p] = 0
+                Y.impingement[0,p] = 0
+                Y.nucRate[0,p] = 0
+                Y.Rnuc[0,p] = 0
                 continue
 
             # Critical Gibbs free energy and radius at nucleation barrier
@@ -673,6 +680,8 @@ class PrecipitateBase(GenericModel):
             
             # If impingement is 0, then skip rest of calculations (no nucleation rate)
             if beta == 0:
+                Y.nucRate[0,p] = 0
+                Y.Rnuc[0,p] = 0
                 continue
 
             # Zeldovich factor
